@@ -1,20 +1,38 @@
 """C02 — every output packet is one well-formed temporal unit.
 
-(1) Lean proofs (LEB128 round trip, OBU list round trip, temporal-unit structure of the encode_tu model).
+(0) `xlate/obusites.py` regenerates lean/SvtVerif/Gen/ObuSites.lean: every OBU framing site of the encoder (header write,
+    size-field reservation `obu_mem_move`, size-field encoding `write_uleb_obu_size`, accounted byte count) as expression trees.
+(1) Lean proofs (LEB128 round trip, OBU list round trip, temporal-unit structure of the encode_tu model, and — over the generated
+    table — `all_sites_consistent`: at every site the reserved value is the encoded value, for ALL payload sizes).
 (2) Correspondence of the Lean OBU / sequence-header / frame-header parser (`svtmodel obu`) with the REAL decoder's
     parser: every packet of a matrix of REAL encodes is parsed by both, and the extracted fields are compared
     field by field (harness/dec_hdr.c links libSvtAv1Dec.a and prints the decoder handle's frame_header/seq_header).
+    Correspondence of `ObuSite.layoutSite` with the REAL `obu_mem_move` + `write_uleb_obu_size` and the real
+    `write_metadata_av1` on payload sizes around 127/128 and 16383/16384 (harness/obusite.c).
 (3) The property's own oracle on the REAL packets (parse ok, TD first, exactly one displayed frame and it is the
     last one, sequence header in the first packet and with every key frame, byte-identical each time and to
-    svt_av1_enc_stream_header, pic_type vs carried frame type).
+    svt_av1_enc_stream_header, pic_type vs carried frame type), on
+      * the feature matrix,
+      * a boundary-directed family of tiny encodes, generated until OBU_FRAME payloads of 126, 127 and 128 bytes were all seen
+        (LEB128 length boundary of the size field; the histogram is measured and reported),
+      * one (thorough: three) stream(s) longer than the 2048-entry packetization reorder queue, so that queue entries and their
+        show-existing bitstreams are reused,
+      * the show-existing branch of `packetization_kernel` itself, extracted and run on real objects for > 2 x 2048 pictures
+        (harness/pktz_se.c), every resulting show-existing packet through the same oracle.
 """
 import os
 import subprocess
+import sys
+import time
 from . import common as C
+
+sys.path.insert(0, os.path.join(C.VERIF, "xlate"))
+sys.path.insert(0, os.path.join(C.VERIF, "harness"))
 
 LEVEL = "proof"
 MODULE = "SvtVerif.Props.C02"
 MARK = "--- model input (feed to `svtmodel obu`; the same lines with `RESET w h bd` feed harness/dec_hdr) ---"
+GEN = "SvtVerif/Gen/ObuSites.lean"
 
 # keys compared between the Lean parser and the real decoder for every coded (not show-existing) frame
 ALWAYS = ("show_existing frame_type show_frame showable error_res order_hint refresh primary_ref base_q_idx w h upw rw rh "
@@ -30,6 +48,8 @@ SEQ_KEYS = ("profile w h sb128 filter_intra intra_edge interintra masked warped 
             "hbits frame_ids timing decoder_model op_cnt level0 tier0 color_desc color_range csp sep_uv_dq").split()
 
 EOS, SHOW_EXT, HAS_TD, IS_ALT_REF = 1, 2, 4, 8
+BOUNDARY = (126, 127, 128)             # OBU payload sizes around the first LEB128 length boundary
+QUEUE_DEPTH = 2048                     # PACKETIZATION_REORDER_QUEUE_MAX_DEPTH (harness/pktz_se.c prints the real value)
 
 
 def kv(line):
@@ -93,12 +113,67 @@ def cases(chk):
     return base
 
 
-def model_input(r, with_dims=None):
+def long_cases(chk):
+    """Streams longer than the packetization reorder queue (2048 entries), hierarchical GOP with show-existing frames:
+    every queue entry, and the 16-byte bitstream holding its show-existing header, is used a second time."""
+    cs = [dict(w=64, h=64, n=QUEUE_DEPTH + 252, bd=8, content=4, **{"cfg.enc_mode": 8, "cfg.logical_processors": 1})]
+    if chk.tier != "quick":
+        # Leads for C11/C27 met while choosing these (accepted configurations on which the encoder stops producing packets):
+        #   hierarchical_levels=5 with logical_processors=1 (64x64, enc_mode 8: 16 packets, then nothing);
+        #   enable_overlays=1 with logical_processors=1 and intra_period_length=255 (nothing after packet 232 of a 4216-frame stream);
+        #   hierarchical_levels=5 with enable_overlays=1 (no packet).  The 5-level stream therefore runs with the default thread count.
+        cs.append(dict(w=64, h=64, n=QUEUE_DEPTH + 352, bd=8, content=2,
+                       **{"cfg.enc_mode": 8, "cfg.logical_processors": 1, "cfg.hierarchical_levels": 3, "cfg.qp": 55}))
+        cs.append(dict(w=64, h=64, n=2 * QUEUE_DEPTH + 120, bd=8, content=0,
+                       **{"cfg.enc_mode": 8, "cfg.logical_processors": 1, "cfg.qp": 60, "cfg.intra_period_length": 255}))
+        cs.append(dict(w=64, h=64, n=QUEUE_DEPTH + 252, bd=8, content=4, **{"cfg.enc_mode": 8, "cfg.hierarchical_levels": 5}))
+    for i, a in enumerate(cs):
+        a.update(hex=1, recon=0, decode=0, seed=chk.seed * 1000 + 900 + i, watchdog=900, kind="long")
+    return cs
+
+
+# ------------------------------------------------------------------------------------------------ boundary-directed family
+B_SIZES = [(64, 64), (72, 64), (64, 72), (80, 64), (96, 64), (64, 96), (80, 80), (128, 64), (96, 96), (128, 128), (176, 144)]
+
+
+def boundary_case(chk, idx, w, h, qp, content, levels, n):
+    a = dict(w=w, h=h, n=n, bd=8, content=content, hex=1, recon=0, decode=0, seed=chk.seed * 1000 + 500 + idx, watchdog=300, kind="boundary")
+    a.update({"cfg.enc_mode": 8, "cfg.qp": qp, "cfg.logical_processors": 1, "cfg.hierarchical_levels": levels})
+    return a
+
+
+def boundary_round(chk, idx0, scored, k=4):
+    """k tiny real encodes.  First round: a spread over size / qp / content; afterwards: variations (new content seed, qp +-2, one
+    size step) of the configurations that produced most OBU_FRAME payloads in [96, 160] so far."""
+    r = chk.rng
+    out = []
+    best = sorted(scored, key=lambda s: -s[0])[:3]
+    for j in range(k):
+        if best and best[0][0] > 0 and not r.chance(1, 4):
+            _, a = best[j % len(best)]
+            w, h = a["w"], a["h"]
+            if r.chance(1, 3):
+                w, h = r.choice([(w, h), (min(176, w + 8), h), (w, min(144, h + 8)), (max(64, w - 8), h)])
+            qp = max(40, min(63, a["cfg.qp"] + r.range(-2, 2)))
+            content = a["content"] if not r.chance(1, 5) else r.choice([4, 2, 0])
+            levels = a["cfg.hierarchical_levels"] if not r.chance(1, 4) else r.choice([3, 4])
+        else:
+            w, h = r.choice(B_SIZES)
+            qp = r.range(50, 63)
+            content = r.choice([4, 4, 2, 0, 1])
+            levels = r.choice([3, 4])
+        out.append(boundary_case(chk, idx0 + j, w, h, qp, content, levels, r.choice([160, 240, 320])))
+    return out
+
+
+def model_input(r, with_dims=None, upto=None):
     first = "RESET" if with_dims is None else "RESET %d %d %d" % with_dims
     lines = [first]
     if r["HDRHEX"]:
         lines.append("HDR " + r["HDRHEX"])
     for i in sorted(r["HEX"]):
+        if upto is not None and i > upto:
+            break
         lines.append("PKT %d %s" % (i, r["HEX"][i]))
     return lines
 
@@ -131,7 +206,7 @@ def split_model_output(out):
 def run_dec(exe, r, dims):
     text = "\n".join(model_input(r, dims)) + "\n"
     try:
-        p = subprocess.run([exe], input=text.encode(), stdout=subprocess.PIPE, stderr=subprocess.PIPE, timeout=300)
+        p = subprocess.run([exe], input=text.encode(), stdout=subprocess.PIPE, stderr=subprocess.PIPE, timeout=600)
         rc, out = p.returncode, p.stdout.decode("utf-8", "replace")
     except subprocess.TimeoutExpired:
         rc, out = 124, ""
@@ -208,43 +283,404 @@ def gm_lines(chk, n):
 
 
 def describe(args):
-    return " ".join("%s=%s" % (k, v) for k, v in args.items())
+    return " ".join("%s=%s" % (k, v) for k, v in args.items() if k != "kind")
 
 
-def run(chk, only_args=None):
-    # ---- 1. proofs
-    pr = chk.proofs(MODULE, trusted_extra=[
-        "harness/dec_hdr.c: the real decoder (libSvtAv1Dec.a, public API, one svt_av1_dec_frame per frame) whose handle fields "
-        "(frame_header, seq_header, cur_pic_buf->global_motion) are printed and compared with the Lean parser on every real packet",
-        "harness/enc_e2e.c: the real encoder producing the packets"])
-    # ---- 2. real encodes
-    cs = [only_args] if only_args else cases(chk)
-    results = C.run_parallel(lambda a: C.run_e2e(a, timeout=200), cs)
-    dexe = C.compile_harness("dec_hdr", [os.path.join(C.VERIF, "harness", "dec_hdr.c")], libs=["libSvtAv1Dec.a"])
+class Acc:
+    """Everything accumulated over the real packets of a run."""
+
+    def __init__(self):
+        self.corr_fail = []      # (args, pkt, what)
+        self.oracle_fail = []    # (args, r, pkt, what)
+        self.api_mismatch = []   # (args, r, ms)
+        self.f13 = []            # (args, pkt, text)
+        self.n_pkts = self.n_frames = self.n_fields = self.n_seq = 0
+        self.type_seqs = {}
+        self.frame_types = {}
+        self.hist = {"show_existing_packets": 0, "multi_frame_packets": 0, "seqhdr_packets": 0, "intra_only_frames": 0,
+                     "non_shown_frames": 0, "superres_frames": 0, "tiled_frames": 0, "film_grain_frames": 0, "seg_frames": 0,
+                     "sct_frames": 0, "intrabc_frames": 0, "gm_nonidentity_frames": 0, "skip_mode_frames": 0, "lr_frames": 0,
+                     "pic_type": {}}
+        self.samples = 0
+        self.payload_sizes = {}          # obu type -> {payload size: count}
+        self.boundary_by_kind = {}       # encode kind -> {126|127|128: count} (OBU_FRAME / OBU_FRAME_HEADER payloads)
+        self.usable = 0
+        self.encodes = 0
+        self.enc_problems = []
+        self.model_err = None
+        self.by_kind = {}
+        self.packets_beyond_queue = 0    # packets with index >= 2048 (a queue entry used for the second time)
+        self.show_existing_beyond_queue = 0
+
+
+def encode_all(cs, workers=4):
+    return C.run_parallel(lambda a: C.run_e2e({k: v for k, v in a.items() if k != "kind"}, timeout=a.get("watchdog", 100) + 100), cs, workers=workers)
+
+
+def process(chk, acc, cs, results, dexe=None):
+    """Lean parser (+ real decoder when `dexe`) over the packets of the given encodes; oracle; histograms.
+    Returns per encode the number of OBU_FRAME payloads in [96, 160] (density near the first LEB128 boundary)."""
     usable = []
-    enc_problems = []
+    density = []
     for a, r in zip(cs, results):
+        acc.encodes += 1
+        acc.by_kind[a.get("kind", "matrix")] = acc.by_kind.get(a.get("kind", "matrix"), 0) + 1
         if r["crashed"] or r["hung"] or r["SETPARAM"] not in (0,) or not r["PKT"] or len(r["HEX"]) != len(r["PKT"]):
-            enc_problems.append((describe(a), "rc=%s setparam=%s packets=%d err=%s" % (r["rc"], r["SETPARAM"], len(r["PKT"]), r["ERR"][:2])))
+            acc.enc_problems.append((describe(a), "rc=%s setparam=%s packets=%d err=%s" % (r["rc"], r["SETPARAM"], len(r["PKT"]), r["ERR"][:2])))
         else:
             usable.append((a, r))
-    chk.cov["encodes"] = len(cs)
-    chk.cov["encodes_usable"] = len(usable)
-    if enc_problems:
-        chk.cov["encodes_not_usable"] = enc_problems[:10]
+    acc.usable += len(usable)
+    if not usable:
+        return [0 for _ in cs]
     text = "\n".join("\n".join(model_input(r)) for _, r in usable) + "\n"
-    mstreams = []
-    model_err = None
-    if usable:
-        try:
-            mstreams = split_model_output(C.run_model("obu", text))
-        except (RuntimeError, C.BuildError) as e:
-            model_err = str(e)[-1500:]
-    decs = C.run_parallel(lambda ar: run_dec(dexe, ar[1], (ar[0]["w"], ar[0]["h"], ar[0]["bd"])), usable)
+    try:
+        mstreams = split_model_output(C.run_model("obu", text))
+    except (RuntimeError, C.BuildError) as e:
+        acc.model_err = str(e)[-1500:]
+        return [0 for _ in cs]
+    decs = C.run_parallel(lambda ar: run_dec(dexe, ar[1], (ar[0]["w"], ar[0]["h"], ar[0]["bd"])), usable, workers=4) if dexe else [None] * len(usable)
+    dens_of = {}
+    for si, (a, r) in enumerate(usable):
+        if si >= len(mstreams):
+            break
+        ms, ds = mstreams[si], decs[si]
+        tag = describe(a)
+        dens = 0
+        # stream header
+        if ms["hdr"] is None or ms["hdr"].get("ok") != "1" or len(ms["hdr_seq"]) != 1:
+            acc.oracle_fail.append((a, r, -1, "stream header from svt_av1_enc_stream_header is not exactly one parseable sequence header OBU: %s" % ms["hdr"]))
+        elif ds is not None and ds["hdr_seq"]:
+            acc.n_seq += 1
+            for k in SEQ_KEYS:
+                if ms["hdr_seq"][0].get(k) != ds["hdr_seq"][0].get(k):
+                    acc.corr_fail.append((a, -1, "SEQ(api) %s: lean=%s decoder=%s" % (k, ms["hdr_seq"][0].get(k), ds["hdr_seq"][0].get(k))))
+        if len(ms["pkts"]) != len(r["PKT"]):
+            acc.corr_fail.append((a, -1, "model printed %d packet lines for %d packets" % (len(ms["pkts"]), len(r["PKT"]))))
+            continue
+        api_bad = False
+        for p, mp in zip(r["PKT"], ms["pkts"]):
+            i = p["i"]
+            m = mp["kv"]
+            acc.n_pkts += 1
+            acc.type_seqs[m.get("types", "")] = acc.type_seqs.get(m.get("types", ""), 0) + 1
+            acc.hist["pic_type"][str(p["pic_type"])] = acc.hist["pic_type"].get(str(p["pic_type"]), 0) + 1
+            if i >= QUEUE_DEPTH:
+                acc.packets_beyond_queue += 1
+            # --- oracle
+            if m.get("ok") != "1":
+                acc.oracle_fail.append((a, r, i, "packet does not parse: %s" % m.get("err")))
+                continue
+            ts = m.get("types", "").split(",")
+            for t, sz in zip(ts, m.get("sizes", "").split(",")):
+                if sz.isdigit():
+                    h = acc.payload_sizes.setdefault(t, {})
+                    h[int(sz)] = h.get(int(sz), 0) + 1
+                    if t == "6" and 96 <= int(sz) <= 160:
+                        dens += 1
+                    if t in ("6", "3") and int(sz) in BOUNDARY:
+                        bk = acc.boundary_by_kind.setdefault(a.get("kind", "matrix"), {})
+                        bk[sz] = bk.get(sz, 0) + 1
+            if m.get("td_first") != "1":
+                acc.oracle_fail.append((a, r, i, "packet does not start with a temporal delimiter (types=%s)" % m.get("types")))
+            if ts.count("2") != 1:
+                acc.oracle_fail.append((a, r, i, "packet contains %d temporal delimiters (types=%s)" % (ts.count("2"), m.get("types"))))
+            if m.get("tu") != "1":
+                acc.oracle_fail.append((a, r, i, "packet is not a temporal unit in the sense of Tu.isTemporalUnit (types=%s)" % m.get("types")))
+            frm = mp["frm"]
+            shown = [f for f in frm if f.get("show_frame") == "1"]
+            if len(shown) != 1 or not frm or frm[-1].get("show_frame") != "1":
+                acc.oracle_fail.append((a, r, i, "packet carries %d displayed frames (show flags in order: %s; OBU types %s)" %
+                                        (len(shown), ",".join(f.get("show_frame", "?") for f in frm), m.get("types"))))
+            has_key = any(f.get("frame_type") == "0" and f.get("show_existing") == "0" for f in frm)
+            if (i == 0 or has_key) and m.get("seqhdr") != "1":
+                acc.oracle_fail.append((a, r, i, "no sequence header in %s" % ("the first packet" if i == 0 else "a packet carrying a key frame")))
+            if m.get("seqhdr") == "1":
+                acc.hist["seqhdr_packets"] += 1
+                if m.get("seqhdr_same_as_first") != "1":
+                    acc.oracle_fail.append((a, r, i, "sequence header differs from the first one of the stream"))
+                if m.get("seqhdr_same_as_api") != "1":
+                    api_bad = True
+            # sequence header position: before the first frame OBU
+            if "1" in ts and any(t in ("6", "3") for t in ts[:ts.index("1")]):
+                acc.oracle_fail.append((a, r, i, "sequence header after a frame inside the packet (types=%s)" % m.get("types")))
+            if shown:
+                d = shown[-1]
+                ft = d.get("frame_type")
+                pt = p["pic_type"]
+                cls_frame = {"0": "KEY", "2": "INTRA_ONLY"}.get(ft, "INTER")
+                cls_pkt = {3: "KEY", 2: "INTRA_ONLY"}.get(pt, "INTER")
+                if cls_frame != cls_pkt:
+                    acc.oracle_fail.append((a, r, i, "pic_type=%d (%s) but the displayed frame has frame_type=%s (%s)" % (pt, cls_pkt, ft, cls_frame)))
+                if pt == 1 and d.get("show_existing") == "0" and not (p["flags"] & IS_ALT_REF):
+                    acc.f13.append((a, i, "packet %d: pic_type=1 (EB_AV1_ALT_REF_PICTURE) for a directly shown inter frame "
+                                          "(show_frame=1 show_existing_frame=0 refresh=%s, flags=%d without IS_ALT_REF)" % (i, d.get("refresh"), p["flags"])))
+                if bool(p["flags"] & SHOW_EXT) != (d.get("show_existing") == "1"):
+                    acc.oracle_fail.append((a, r, i, "EB_BUFFERFLAG_SHOW_EXT=%d but show_existing_frame=%s" % (bool(p["flags"] & SHOW_EXT), d.get("show_existing"))))
+            # --- coverage
+            if len(frm) > 1:
+                acc.hist["multi_frame_packets"] += 1
+            for f in frm:
+                acc.n_frames += 1
+                acc.frame_types[f.get("frame_type")] = acc.frame_types.get(f.get("frame_type"), 0) + 1
+                if f.get("show_existing") == "1":
+                    acc.hist["show_existing_packets"] += 1
+                    if i >= QUEUE_DEPTH:
+                        acc.show_existing_beyond_queue += 1
+                    continue
+                acc.hist["intra_only_frames"] += f.get("frame_type") == "2"
+                acc.hist["non_shown_frames"] += f.get("show_frame") == "0"
+                acc.hist["superres_frames"] += f.get("use_superres") == "1"
+                acc.hist["tiled_frames"] += f.get("tile_cols") != "1" or f.get("tile_rows") != "1"
+                acc.hist["film_grain_frames"] += f.get("film_grain") == "1"
+                acc.hist["seg_frames"] += f.get("seg_enabled") == "1"
+                acc.hist["sct_frames"] += f.get("allow_sct") == "1"
+                acc.hist["intrabc_frames"] += f.get("allow_intrabc") == "1"
+                acc.hist["gm_nonidentity_frames"] += f.get("gm") != "0,0,0,0,0,0,0"
+                acc.hist["skip_mode_frames"] += f.get("skip_mode") == "1"
+                acc.hist["lr_frames"] += (f.get("lr_y"), f.get("lr_u"), f.get("lr_v")) != ("0", "0", "0")
+            # --- correspondence with the real decoder
+            if ds is None:
+                continue
+            dp = ds["pkts"].get(i)
+            if dp is None or dp["dpk"] is None or dp["dpk"].get("err") != "0" or dp["dpk"].get("leftover") != "0":
+                acc.corr_fail.append((a, i, "real decoder did not decode the packet: %s (rc=%s)" % (dp["dpk"] if dp else None, ds["rc"])))
+                continue
+            if len(dp["frm"]) != len(frm):
+                acc.corr_fail.append((a, i, "frame headers: lean=%d decoder=%d" % (len(frm), len(dp["frm"]))))
+                continue
+            for k, (mf, cf) in enumerate(zip(frm, dp["frm"])):
+                diffs, nk = compare_frame(mf, cf)
+                acc.n_fields += nk
+                for key, lv, cv in diffs:
+                    acc.corr_fail.append((a, i, "frame %d field %s: lean=%s decoder=%s" % (k, key, lv, cv)))
+            if len(dp["seq"]) != len(mp["seq"]):
+                acc.corr_fail.append((a, i, "sequence headers: lean=%d decoder=%d" % (len(mp["seq"]), len(dp["seq"]))))
+            for msq, csq in zip(mp["seq"], dp["seq"]):
+                acc.n_seq += 1
+                for k in SEQ_KEYS:
+                    acc.n_fields += 1
+                    if msq.get(k) != csq.get(k):
+                        acc.corr_fail.append((a, i, "SEQ %s: lean=%s decoder=%s" % (k, msq.get(k), csq.get(k))))
+            if acc.samples < 4 and frm:
+                chk.sample({"encode": tag, "packet": i, "lean": mp["line"], "pic_type": p["pic_type"], "flags": p["flags"]})
+                acc.samples += 1
+        if api_bad:
+            acc.api_mismatch.append((a, r, ms))
+        dens_of[id(a)] = dens
+    return [dens_of.get(id(a), 0) for a in cs]
+
+
+def boundary_seen(acc):
+    """{126: n, 127: n, 128: n} over OBU_FRAME / OBU_FRAME_HEADER payloads of real packets."""
+    return {b: acc.payload_sizes.get("6", {}).get(b, 0) + acc.payload_sizes.get("3", {}).get(b, 0) for b in BOUNDARY}
+
+
+# ------------------------------------------------------------------------------------------------ unit level: sites and the kernel branch
+def gen_inc():
+    import extract
+    import pktz_se_extract
+    inc = pktz_se_extract.write_inc(C.gen_src_dir())
+    t = extract.function_text("Source/Lib/Encoder/Codec/EbEntropyCoding.c", "obu_mem_move") + "\n"
+    p = os.path.join(inc, "obusite_extracted.inc")
+    if not os.path.exists(p) or open(p).read() != t:
+        open(p, "w").write(t)
+    return inc
+
+
+def site_unit(chk, sites_info):
+    """`ObuSite.layoutSite` of every generated moving site vs the REAL obu_mem_move + write_uleb_obu_size, and of the metadata site
+    vs the REAL write_metadata_av1, on payload sizes around the LEB128 length boundaries.
+    Returns (ops, model/real mismatches, real metadata OBUs the parser rejects)."""
+    exe = C.compile_harness("obusite", [os.path.join(C.VERIF, "harness", "obusite.c")], libs=["libSvtAv1Enc.a"],
+                            extra=["-I" + gen_inc(), "-DNDEBUG"])
+    r = chk.rng
+    psizes = [0, 1, 2, 125, 126, 127, 128, 129, 130, 255, 256, 16382, 16383, 16384, 16385] + [r.range(3, 20000) for _ in range(6)]
+    if chk.tier != "quick":
+        psizes += [2097150, 2097151, 2097152, 2097153] + [r.range(3, 300000) for _ in range(20)]
+    ops = []
+    for p in psizes:
+        for hdr in ("32", "0a", "2a", "3620"):
+            if hdr == "3620" and p > 300:
+                continue
+            payload = bytes(r.below(256) for _ in range(min(p, 64))) * (p // 64 + 1)
+            ops.append(("MM", hdr, payload[:p].hex() or "-"))
+    msizes = [1, 2, 123, 124, 125, 126, 127, 128, 16380, 16381, 16382, 16383] + [r.range(2, 18000) for _ in range(4)]
+    mops = [("META", sz, r.below(1 << 30)) for sz in msizes]
+    text = "".join("MM %s %s\n" % (h, p) for _, h, p in ops) + "".join("META %d %d\n" % (sz, sd) for _, sz, sd in mops)
+    rc, cout = C.sh([exe], input=text.encode(), timeout=600)
+    cl = [l for l in cout.split("\n") if l.startswith("MM ") or l.startswith("META ")]
+    mism = []
+    if rc != 0 or len(cl) != len(ops) + len(mops):
+        return len(cl), [("harness/obusite rc=%s printed %d lines for %d ops" % (rc, len(cl), len(ops) + len(mops)), "", "")], []
+    moving = [s for s in sites_info if s.get("moving") == "1"]
+    meta = [s for s in sites_info if s.get("types") == "5"]
+    lines = []
+    for s in moving:
+        for _, h, p in ops:
+            lines.append("SITE %s %s %s" % (s["k"], h, p))
+    metas = [kv(l) for l in cl[len(ops):]]
+    if any(mk.get("len") == "0" or not mk.get("hex") for mk in metas):
+        return len(cl), [("harness/obusite: write_metadata_av1 wrote nothing for a non-empty metadata item", "", str([mk.get("sz") for mk in metas if not mk.get("hex")]))], []
+    for s in meta:
+        for mk in metas:
+            lines.append("SITE %s %s %s" % (s["k"], "2a", mk["payload"]))
+    mout = [l for l in C.run_model("obu", "\n".join(lines) + "\n").split("\n") if l.startswith("SITE ")]
+    if len(mout) != len(lines):
+        return len(cl), [("svtmodel obu printed %d SITE lines for %d ops" % (len(mout), len(lines)), "", "")], []
+    j = 0
+    for s in moving:
+        for (_, h, p), c in zip(ops, cl[:len(ops)]):
+            ck, mk = kv(c), kv(mout[j])
+            j += 1
+            if ck.get("hex") != mk.get("hex") or ck.get("len") != mk.get("len"):
+                mism.append(("site %s (%s): header %s, payload of %d bytes" % (s["k"], s["name"], h, 0 if p == "-" else len(p) // 2),
+                             "lean layoutSite: len=%s %s.." % (mk.get("len"), (mk.get("hex") or "")[:40]),
+                             "real obu_mem_move + write_uleb_obu_size(hdr, payload): len=%s %s.." % (ck.get("len"), (ck.get("hex") or "")[:40])))
+    for s in meta:
+        for mk_c in metas:
+            mk = kv(mout[j])
+            j += 1
+            if mk_c.get("hex") != mk.get("hex") or mk_c.get("err") != "0":
+                mism.append(("site %s (%s): real write_metadata_av1 with %s metadata bytes" % (s["k"], s["name"], mk_c.get("sz")),
+                             "lean layoutSite: len=%s %s.." % (mk.get("len"), (mk.get("hex") or "")[:40]),
+                             "real: err=%s len=%s %s.." % (mk_c.get("err"), mk_c.get("len"), (mk_c.get("hex") or "")[:40])))
+    # the real metadata OBUs must also parse (independent of the site model): framing oracle on real bytes
+    ptext = "RESET\n" + "".join("PKT %d %s\n" % (i, mk["hex"]) for i, mk in enumerate(metas))
+    pk = [kv(l) for l in C.run_model("obu", ptext).split("\n") if l.startswith("pkt=")]
+    bad_real = []
+    for mk_c, m in zip(metas, pk):
+        want = str(int(mk_c["sz"]) + 2)
+        if m.get("err", "").startswith("obu:") or m.get("types") != "5" or m.get("sizes") != want:
+            bad_real.append("real write_metadata_av1 output for %s metadata bytes is not one OBU_METADATA with a %s-byte payload: "
+                            "parser says err=%s types=%s sizes=%s; bytes %s.." % (mk_c["sz"], want, m.get("err"), m.get("types"), m.get("sizes"), mk_c["hex"][:40]))
+    chk.cov["site_unit"] = {"mem_move_ops": len(ops), "metadata_ops": len(mops), "moving_sites_compared": [s["name"] for s in moving],
+                            "payload_sizes": sorted(set(psizes))[:40], "metadata_payload_sizes": sorted(sz + 2 for sz in msizes)}
+    return len(lines), mism, bad_real
+
+
+def kernel_branch_unit(chk):
+    """The extracted show-existing branch of packetization_kernel on real objects, more pictures than queue entries; every resulting
+    show-existing packet (temporal delimiter + the entry's bitstream, as encode_show_existing assembles it) through the oracle."""
+    exe = C.compile_harness("pktz_se", [os.path.join(C.VERIF, "harness", "pktz_se.c")], libs=["libSvtAv1Enc.a"],
+                            extra=["-I" + gen_inc(), "-DNDEBUG"])
+    passes = 3 if chk.tier == "quick" else 6
+    runs = ["RUN %d 4 0 0" % (passes * QUEUE_DEPTH + 40), "RUN %d 3 7 %d" % (2 * QUEUE_DEPTH + 300, chk.rng.range(1, 40)),
+            "RUN %d 8 2 125" % (2 * QUEUE_DEPTH + 64)]
+    fails = []
+    n = 0
+    reused = 0
+    for run in runs:
+        rc, out = C.sh([exe], input=(run + "\n").encode(), timeout=600)
+        se = [kv(l) for l in out.split("\n") if l.startswith("SE ")]
+        depth = [l.split()[1] for l in out.split("\n") if l.startswith("DEPTH ")]
+        if rc != 0 or not se:
+            fails.append((run, "harness/pktz_se failed: rc=%s, %d SE lines, output tail: %s" % (rc, len(se), out[-300:])))
+            continue
+        if depth and int(depth[0]) != QUEUE_DEPTH:
+            chk.cov["queue_depth_in_repo"] = int(depth[0])
+        text = "RESET\n" + "".join("PKT %d 1200%s\n" % (i, s.get("hex", "")) for i, s in enumerate(se))
+        pk = [kv(l) for l in C.run_model("obu", text).split("\n") if l.startswith("pkt=")]
+        for s, m in zip(se, pk):
+            n += 1
+            reused += s.get("use") != "1"
+            want_types = "2,3" if s.get("meta") == "0" else "2,5,3"
+            if m.get("err", "").startswith("obu:") or m.get("tu") != "1" or m.get("types") != want_types:
+                fails.append((run, "picture with decode_order %s (queue entry %s, use no. %s of that entry, show_existing_frame=%s): the show-existing "
+                                   "packet `TD ++ entry bitstream` = 1200%s has OBU types %s (expected %s), temporal unit with exactly one displayed frame: %s, "
+                                   "framing error: %s" % (s.get("d"), s.get("slot"), s.get("use"), s.get("idx"), s.get("hex"), m.get("types"), want_types,
+                                                          m.get("tu") == "1", m.get("err"))))
+    chk.cov["kernel_show_existing_unit"] = {"runs": runs, "branch_executions": n, "on_reused_entries": reused}
+    return n, fails
+
+
+def run(chk, only_args=None, only_unit=False):
+    t_start = time.time()
+    quick = chk.tier == "quick"
+    # ---- 0. regenerate the framing-site table from the current tree
+    import cfun
+    import obusites
+    site_table, terr = None, None
+    try:
+        site_table = obusites.main(os.path.join(C.LEAN, GEN))
+    except cfun.Unsupported as e:
+        terr = str(e)
+    chk.cov["framing_sites"] = site_table if site_table is not None else "translator refused: %s" % terr
+    # ---- 1. proofs
+    pr = chk.proofs(MODULE, trusted_extra=[
+        "xlate/obusites.py: clang-14 JSON AST -> per framing site the size expressions of obu_mem_move / write_uleb_obu_size / the write-pointer "
+        "advance over hdr and payload (callee bodies and locals inlined; `payload` = what is appended behind the header; refuses unknown shapes)",
+        "harness/dec_hdr.c: the real decoder (libSvtAv1Dec.a, public API, one svt_av1_dec_frame per frame) whose handle fields "
+        "(frame_header, seq_header, cur_pic_buf->global_motion) are printed and compared with the Lean parser on every real packet",
+        "harness/enc_e2e.c: the real encoder producing the packets",
+        "harness/obusite.c: real obu_mem_move / write_uleb_obu_size / write_metadata_av1 vs ObuSite.layoutSite",
+        "harness/pktz_se.c: the show-existing branch of packetization_kernel (extracted text) on real queue entries; the pictures reaching it are hand-written"])
+    acc = Acc()
+    proof_broken = (not pr.ok) or terr is not None
+    timing = {"xlate_and_proofs_s": round(time.time() - t_start, 1)}
+    t_mark = time.time()
+    # ---- 2. unit level
+    sites_info = []
+    site_mism, site_bad_real, se_fails = [], [], []
+    n_site_ops = n_se = 0
+    unit_err = None
+    try:
+        sites_info = [kv(l) for l in C.run_model("obu", "SITES\n").split("\n") if l.startswith("SITEINFO ")]
+        if not only_args:
+            n_site_ops, site_mism, site_bad_real = site_unit(chk, sites_info)
+            n_se, se_fails = kernel_branch_unit(chk)
+    except (RuntimeError, C.BuildError, cfun.Unsupported) as e:
+        unit_err = str(e)[-1500:]
+    inconsistent = [s["name"] for s in sites_info if s.get("consistent") != "1"]
+    timing["unit_harnesses_s"] = round(time.time() - t_mark, 1)
+    t_mark = time.time()
+    chk.cov["framing_sites_consistent"] = {s["name"]: s.get("consistent") == "1" for s in sites_info}
+    # ---- 3. real encodes: matrix + long stream(s) + boundary family
+    dexe = C.compile_harness("dec_hdr", [os.path.join(C.VERIF, "harness", "dec_hdr.c")], libs=["libSvtAv1Dec.a"])
+    scored = []
+    rounds = 0
+    if only_unit:
+        cs = []
+    elif only_args:
+        cs = [only_args]
+    else:
+        first = boundary_round(chk, 0, scored)
+        cs = long_cases(chk) + first + cases(chk)
+        rounds = 1
+    results = encode_all(cs)
+    timing["first_batch_encodes_s"] = round(time.time() - t_mark, 1)
+    t_mark = time.time()
+    dens = process(chk, acc, cs, results, dexe)
+    timing["first_batch_parse_and_decode_s"] = round(time.time() - t_mark, 1)
+    for a, d in zip(cs, dens):
+        if a.get("kind") == "boundary":
+            scored.append((d, a))
+    # boundary search: until 126, 127, 128 were all seen (budget), or — when an obligation is broken — until a real packet fails
+    t_b = time.time()
+    budget = (75 if quick else 400)
+    budget_broken = (170 if quick else 900)
+    idx = 4
+    while not only_args and not only_unit:
+        seen = boundary_seen(acc)
+        done = all(seen[b] > 0 for b in BOUNDARY)
+        el = time.time() - t_b
+        if acc.oracle_fail:
+            break
+        if proof_broken or inconsistent or site_mism:
+            if el > budget_broken:
+                break
+        elif done or el > budget:
+            break
+        rnd = boundary_round(chk, idx, scored)
+        idx += len(rnd)
+        rounds += 1
+        res = encode_all(rnd)
+        dens = process(chk, acc, rnd, res, None)
+        for a, d in zip(rnd, dens):
+            scored.append((d, a))
 
     # ---- 2b. global_motion_params(): the real encoder never produced a non-identity model on the synthetic inputs, so the
     # Lean reader is compared with the real read_global_motion_params (EbDecParseObu.c l.1171) on seeded random bits
-    gml = gm_lines(chk, 300 if chk.tier == "quick" else 5000)
+    gml = gm_lines(chk, 300 if quick else 5000)
     gm_bad = []
     gm_types = {}
     try:
@@ -262,161 +698,79 @@ def run(chk, only_args=None):
     except (RuntimeError, C.BuildError) as e:
         gm_bad.append(("run", str(e)[-500:], ""))
     chk.cov["gm_random_inputs"] = len(gml)
+    timing["boundary_search_s"] = round(time.time() - t_b, 1)
+    chk.cov["timing"] = timing
     chk.cov["gm_types_decoded"] = gm_types
 
-    # ---- 3. compare + oracle
-    corr_fail = []      # (args, pkt, what)
-    oracle_fail = []    # (args, r, pkt, what)
-    api_mismatch = []   # (args, r)
-    f13 = []            # (args, pkt, text)
-    n_pkts = n_frames = n_fields = n_seq = 0
-    type_seqs = {}
-    frame_types = {}
-    hist = {"show_existing_packets": 0, "multi_frame_packets": 0, "seqhdr_packets": 0, "intra_only_frames": 0,
-            "non_shown_frames": 0, "superres_frames": 0, "tiled_frames": 0, "film_grain_frames": 0, "seg_frames": 0,
-            "sct_frames": 0, "intrabc_frames": 0, "gm_nonidentity_frames": 0, "skip_mode_frames": 0, "lr_frames": 0,
-            "pic_type": {}}
-    samples = 0
-    for si, (a, r) in enumerate(usable):
-        if si >= len(mstreams):
-            break
-        ms, ds = mstreams[si], decs[si]
-        tag = describe(a)
-        # stream header
-        if ms["hdr"] is None or ms["hdr"].get("ok") != "1" or len(ms["hdr_seq"]) != 1:
-            oracle_fail.append((a, r, -1, "stream header from svt_av1_enc_stream_header is not exactly one parseable sequence header OBU: %s" % ms["hdr"]))
-        elif ds["hdr_seq"]:
-            n_seq += 1
-            for k in SEQ_KEYS:
-                if ms["hdr_seq"][0].get(k) != ds["hdr_seq"][0].get(k):
-                    corr_fail.append((a, -1, "SEQ(api) %s: lean=%s decoder=%s" % (k, ms["hdr_seq"][0].get(k), ds["hdr_seq"][0].get(k))))
-        if len(ms["pkts"]) != len(r["PKT"]):
-            corr_fail.append((a, -1, "model printed %d packet lines for %d packets" % (len(ms["pkts"]), len(r["PKT"]))))
-            continue
-        api_bad = False
-        for p, mp in zip(r["PKT"], ms["pkts"]):
-            i = p["i"]
-            m = mp["kv"]
-            n_pkts += 1
-            type_seqs[m.get("types", "")] = type_seqs.get(m.get("types", ""), 0) + 1
-            hist["pic_type"][str(p["pic_type"])] = hist["pic_type"].get(str(p["pic_type"]), 0) + 1
-            # --- oracle
-            if m.get("ok") != "1":
-                oracle_fail.append((a, r, i, "packet does not parse: %s" % m.get("err")))
-                continue
-            if m.get("td_first") != "1":
-                oracle_fail.append((a, r, i, "packet does not start with a temporal delimiter (types=%s)" % m.get("types")))
-            if m.get("types", "").split(",").count("2") != 1:
-                oracle_fail.append((a, r, i, "packet contains %d temporal delimiters (types=%s)" % (m.get("types", "").split(",").count("2"), m.get("types"))))
-            if m.get("tu") != "1":
-                oracle_fail.append((a, r, i, "packet is not a temporal unit in the sense of Tu.isTemporalUnit (types=%s)" % m.get("types")))
-            frm = mp["frm"]
-            shown = [f for f in frm if f.get("show_frame") == "1"]
-            if len(shown) != 1 or not frm or frm[-1].get("show_frame") != "1":
-                oracle_fail.append((a, r, i, "packet carries %d displayed frames (show flags in order: %s)" % (len(shown), ",".join(f.get("show_frame", "?") for f in frm))))
-            has_key = any(f.get("frame_type") == "0" and f.get("show_existing") == "0" for f in frm)
-            if (i == 0 or has_key) and m.get("seqhdr") != "1":
-                oracle_fail.append((a, r, i, "no sequence header in %s" % ("the first packet" if i == 0 else "a packet carrying a key frame")))
-            if m.get("seqhdr") == "1":
-                hist["seqhdr_packets"] += 1
-                if m.get("seqhdr_same_as_first") != "1":
-                    oracle_fail.append((a, r, i, "sequence header differs from the first one of the stream"))
-                if m.get("seqhdr_same_as_api") != "1":
-                    api_bad = True
-            # sequence header position: before the first frame OBU
-            ts = m.get("types", "").split(",")
-            if "1" in ts and any(t in ("6", "3") for t in ts[:ts.index("1")]):
-                oracle_fail.append((a, r, i, "sequence header after a frame inside the packet (types=%s)" % m.get("types")))
-            if shown:
-                d = shown[-1]
-                ft = d.get("frame_type")
-                pt = p["pic_type"]
-                cls_frame = {"0": "KEY", "2": "INTRA_ONLY"}.get(ft, "INTER")
-                cls_pkt = {3: "KEY", 2: "INTRA_ONLY"}.get(pt, "INTER")
-                if cls_frame != cls_pkt:
-                    oracle_fail.append((a, r, i, "pic_type=%d (%s) but the displayed frame has frame_type=%s (%s)" % (pt, cls_pkt, ft, cls_frame)))
-                if pt == 1 and d.get("show_existing") == "0" and not (p["flags"] & IS_ALT_REF):
-                    f13.append((a, i, "packet %d: pic_type=1 (EB_AV1_ALT_REF_PICTURE) for a directly shown inter frame "
-                                      "(show_frame=1 show_existing_frame=0 refresh=%s, flags=%d without IS_ALT_REF)" % (i, d.get("refresh"), p["flags"])))
-                if bool(p["flags"] & SHOW_EXT) != (d.get("show_existing") == "1"):
-                    oracle_fail.append((a, r, i, "EB_BUFFERFLAG_SHOW_EXT=%d but show_existing_frame=%s" % (bool(p["flags"] & SHOW_EXT), d.get("show_existing"))))
-            # --- coverage
-            if len(frm) > 1:
-                hist["multi_frame_packets"] += 1
-            for f in frm:
-                n_frames += 1
-                frame_types[f.get("frame_type")] = frame_types.get(f.get("frame_type"), 0) + 1
-                if f.get("show_existing") == "1":
-                    hist["show_existing_packets"] += 1
-                    continue
-                hist["intra_only_frames"] += f.get("frame_type") == "2"
-                hist["non_shown_frames"] += f.get("show_frame") == "0"
-                hist["superres_frames"] += f.get("use_superres") == "1"
-                hist["tiled_frames"] += f.get("tile_cols") != "1" or f.get("tile_rows") != "1"
-                hist["film_grain_frames"] += f.get("film_grain") == "1"
-                hist["seg_frames"] += f.get("seg_enabled") == "1"
-                hist["sct_frames"] += f.get("allow_sct") == "1"
-                hist["intrabc_frames"] += f.get("allow_intrabc") == "1"
-                hist["gm_nonidentity_frames"] += f.get("gm") != "0,0,0,0,0,0,0"
-                hist["skip_mode_frames"] += f.get("skip_mode") == "1"
-                hist["lr_frames"] += (f.get("lr_y"), f.get("lr_u"), f.get("lr_v")) != ("0", "0", "0")
-            # --- correspondence with the real decoder
-            dp = ds["pkts"].get(i)
-            if dp is None or dp["dpk"] is None or dp["dpk"].get("err") != "0" or dp["dpk"].get("leftover") != "0":
-                corr_fail.append((a, i, "real decoder did not decode the packet: %s (rc=%s)" % (dp["dpk"] if dp else None, ds["rc"])))
-                continue
-            if len(dp["frm"]) != len(frm):
-                corr_fail.append((a, i, "frame headers: lean=%d decoder=%d" % (len(frm), len(dp["frm"]))))
-                continue
-            for k, (mf, cf) in enumerate(zip(frm, dp["frm"])):
-                diffs, nk = compare_frame(mf, cf)
-                n_fields += nk
-                for key, lv, cv in diffs:
-                    corr_fail.append((a, i, "frame %d field %s: lean=%s decoder=%s" % (k, key, lv, cv)))
-            if len(dp["seq"]) != len(mp["seq"]):
-                corr_fail.append((a, i, "sequence headers: lean=%d decoder=%d" % (len(mp["seq"]), len(dp["seq"]))))
-            for msq, csq in zip(mp["seq"], dp["seq"]):
-                n_seq += 1
-                for k in SEQ_KEYS:
-                    n_fields += 1
-                    if msq.get(k) != csq.get(k):
-                        corr_fail.append((a, i, "SEQ %s: lean=%s decoder=%s" % (k, msq.get(k), csq.get(k))))
-            if samples < 4 and frm:
-                chk.sample({"encode": tag, "packet": i, "lean": mp["line"], "pic_type": p["pic_type"], "flags": p["flags"]})
-                samples += 1
-        if api_bad:
-            api_mismatch.append((a, r, ms))
-
     # ---- 4. coverage
-    chk.cov["evaluations"] = n_pkts
-    chk.cov["packets"] = n_pkts
-    chk.cov["frame_headers_parsed"] = n_frames
-    chk.cov["sequence_headers_compared"] = n_seq
-    chk.cov["fields_compared_with_real_decoder"] = n_fields
-    chk.cov["distinct_nontrivial"] = len(type_seqs)
+    seen = boundary_seen(acc)
+    fsz = acc.payload_sizes.get("6", {})
+    chk.cov["encodes"] = acc.encodes
+    chk.cov["encodes_usable"] = acc.usable
+    chk.cov["encodes_by_kind"] = acc.by_kind
+    if acc.enc_problems:
+        chk.cov["encodes_not_usable"] = acc.enc_problems[:10]
+    chk.cov["evaluations"] = acc.n_pkts + n_se
+    chk.cov["packets"] = acc.n_pkts
+    chk.cov["frame_headers_parsed"] = acc.n_frames
+    chk.cov["sequence_headers_compared"] = acc.n_seq
+    chk.cov["fields_compared_with_real_decoder"] = acc.n_fields
+    chk.cov["distinct_nontrivial"] = len(acc.type_seqs)
     chk.cov["rule"] = ("distinct_nontrivial = number of distinct OBU type sequences seen in real packets; every packet of every usable "
-                       "encode is parsed by the Lean parser and by the real decoder and all listed header fields compared")
-    chk.cov["obu_type_sequences"] = type_seqs
-    chk.cov["frame_types_seen"] = frame_types
-    chk.cov["feature_histogram"] = hist
-    chk.cov["disagreements_checked"] = n_fields
+                       "encode is parsed by the Lean parser (matrix and long streams also by the real decoder, all listed header fields compared)")
+    chk.cov["obu_type_sequences"] = acc.type_seqs
+    chk.cov["frame_types_seen"] = acc.frame_types
+    chk.cov["feature_histogram"] = acc.hist
+    chk.cov["disagreements_checked"] = acc.n_fields + n_site_ops
+    chk.cov["leb128_boundary"] = {
+        "target": "OBU_FRAME / OBU_FRAME_HEADER payloads of exactly 126, 127, 128 bytes in real packets (size field grows from 1 to 2 bytes at 128)",
+        "seen": {str(b): seen[b] for b in BOUNDARY},
+        "all_hit": all(seen[b] > 0 for b in BOUNDARY),
+        "seen_by_encode_kind": acc.boundary_by_kind,
+        "boundary_rounds": rounds, "boundary_encodes": acc.by_kind.get("boundary", 0), "search_seconds": round(time.time() - t_b, 1),
+        "frame_payload_sizes_120_135": {str(s): fsz.get(s, 0) for s in range(120, 136)},
+        "frame_payload_hist": {"1-15": sum(v for s, v in fsz.items() if s < 16), "16-63": sum(v for s, v in fsz.items() if 16 <= s < 64),
+                               "64-125": sum(v for s, v in fsz.items() if 64 <= s < 126), "126-128": sum(v for s, v in fsz.items() if 126 <= s <= 128),
+                               "129-1023": sum(v for s, v in fsz.items() if 129 <= s < 1024), "1024-16382": sum(v for s, v in fsz.items() if 1024 <= s < 16383),
+                               "16383-16384": sum(v for s, v in fsz.items() if 16383 <= s <= 16384), ">16384": sum(v for s, v in fsz.items() if s > 16384)},
+        "second_boundary_16383_16384_seen": {str(b): fsz.get(b, 0) for b in (16383, 16384)},
+        "other_obu_types_126_128": {t: {str(b): h.get(b, 0) for b in BOUNDARY} for t, h in acc.payload_sizes.items() if t not in ("6", "3")},
+        "note": "metadata OBUs are driven through 127/128 and 16383/16384 by the real write_metadata_av1 (site_unit); not hitting a size is reported here, it is not a violation"}
+    chk.cov["queue_reuse"] = {"packets_with_index_at_least_2048": acc.packets_beyond_queue,
+                              "show_existing_packets_beyond_2048": acc.show_existing_beyond_queue,
+                              "long_streams": [describe(a) for a in cs if a.get("kind") == "long"]}
     chk.assumptions += [
         "streams are the encoder's: profile 0, 4:2:0, no scalability, no annexb, obu_has_size_field=1",
         "packet sizes below 2^28 bytes (bound of write_uleb_obu_size, available = 4)",
-        "tile group payloads are opaque (only headers are parsed)"]
+        "tile group payloads are opaque (only headers are parsed)",
+        "framing sites: `payload` is what the site's writers report to have appended behind the header (not re-derived from their bodies); "
+        "what they really write is covered by parsing every real packet"]
 
     # ---- 5. verdict
-    def replay_text(a, r, what):
+    def replay_text(a, r, what, upto=None):
         return ("%s\nencode: %s\nreplay: bin/check C02 --replay <this file>\n%s\n%s\n" %
-                (what, describe(a), MARK, "\n".join(model_input(r))))
+                (what, describe(a), MARK, "\n".join(model_input(r, upto=upto))))
 
-    if model_err:
-        chk.violation("svtmodel obu failed on real packets: %s\n" % model_err, tag="model", found_input=False)
+    oracle_fail = acc.oracle_fail
+    if acc.model_err:
+        chk.violation("svtmodel obu failed on real packets: %s\n" % acc.model_err, tag="model", found_input=False)
     if oracle_fail:
         a, r, i, what = oracle_fail[0]
-        chk.violation(replay_text(a, r, "C02 violated by a real encoder output packet\npacket index: %d\n%s\nfailing packets in this run: %d" % (i, what, len(oracle_fail))))
-    if api_mismatch:
-        a, r, ms = api_mismatch[0]
+        why = ""
+        if inconsistent or terr:
+            why = "\nframing sites whose size-field reservation is not consistent with the encoded size: %s%s" % (inconsistent, " (translator: %s)" % terr if terr else "")
+        chk.violation(replay_text(a, r, "C02 violated by a real encoder output packet\npacket index: %d\n%s\nfailing packets in this run: %d%s" %
+                                  (i, what, len(oracle_fail), why), upto=(i if i >= 0 else None)))
+    if se_fails:
+        run_line, what = se_fails[0]
+        chk.violation("C02 violated by the show-existing branch of packetization_kernel run on real queue entries (harness/pktz_se.c)\n"
+                      "unit: pktz_se %s\n%s\nfailing branch executions in this run: %d of %d\nreplay: bin/check C02 --replay <this file>\n" %
+                      (run_line, what, len(se_fails), n_se), tag="kernelse")
+    if site_bad_real:
+        chk.violation("C02 violated by the real write_metadata_av1 (harness/obusite.c)\nunit: obusite\n%s\nfailing: %d\n" %
+                      (site_bad_real[0], len(site_bad_real)), tag="metasite")
+    if acc.api_mismatch:
+        a, r, ms = acc.api_mismatch[0]
         hs = ms["hdr_seq"][0] if ms["hdr_seq"] else {}
         ps = next((p["seq"][0] for p in ms["pkts"] if p["seq"]), {})
         diff = ["%s: api=%s in-band=%s" % (k, hs.get(k), ps.get(k)) for k in SEQ_KEYS if hs.get(k) != ps.get(k)]
@@ -424,38 +778,57 @@ def run(chk, only_args=None):
         chk.violation(replay_text(a, r, "sequence header returned by svt_av1_enc_stream_header (called after svt_av1_enc_init, before the first picture) "
                                         "is not byte-identical to the sequence header in the stream\napi header bytes: %s\nfirst packet starts: %s\n"
                                         "differing fields: %s\nencodes affected in this run: %d of %d" %
-                                        (r["HDRHEX"], first[:40], "; ".join(diff), len(api_mismatch), len(usable))),
+                                        (r["HDRHEX"], first[:40], "; ".join(diff), len(acc.api_mismatch), acc.usable), upto=3),
                       tag="apihdr", key="C02-stream-header-api-mismatch")
-    if f13:
-        a, i, what = f13[0]
-        chk.violation("packet pic_type carries the slice-type enum\nencode: %s\n%s\npackets affected in this run: %d\n" % (describe(a), what, len(f13)),
+    if acc.f13:
+        a, i, what = acc.f13[0]
+        chk.violation("packet pic_type carries the slice-type enum\nencode: %s\n%s\npackets affected in this run: %d\n" % (describe(a), what, len(acc.f13)),
                       tag="pictype", key="F13-pictype-slice-enum")
-    if not oracle_fail:
+    if not oracle_fail and not se_fails and not site_bad_real:
+        if terr is not None:
+            chk.violation("xlate/obusites.py refuses the current tree: %s\nno real packet violates the property (%d packets)\n" % (terr, acc.n_pkts),
+                          tag="xlate", found_input=False)
         if not pr.ok:
-            chk.violation("proof obligations do not check:\n%s\nforbidden tokens: %s\nno real packet violates the property (%d packets)\n" %
-                          ("\n".join("%s: %s" % kv_ for kv_ in pr.failed.items()), pr.forbidden, n_pkts), tag="proof", found_input=False)
-        if corr_fail:
-            a, i, what = corr_fail[0]
+            table = "\n".join("  %s (%s:%s): reserved = %s, encoded = %s, total = %s" % (s["name"], s["file"], s["line"], s["reserved"], s["encoded"], s["total"])
+                              for s in (site_table or []))
+            chk.violation("proof obligations do not check:\n%s\nforbidden tokens: %s\nframing sites not consistent: %s\nsites:\n%s\n"
+                          "no real packet violates the property (%d packets; OBU_FRAME payload sizes 126/127/128 seen: %s)\n" %
+                          ("\n".join("%s: %s" % kv_ for kv_ in pr.failed.items()), pr.forbidden, inconsistent, table, acc.n_pkts, seen),
+                          tag="proof", found_input=False)
+        if site_mism:
+            chk.violation("ObuSite.layoutSite and the real reserve - move - encode code disagree (model validation failed, or a site is inconsistent); "
+                          "the real packets satisfy the C02 oracle\n%s\n%s\n%s\ndisagreements: %d\n" % (site_mism[0] + (len(site_mism),)),
+                          tag="sitecorr", found_input=False)
+        if unit_err:
+            chk.violation("unit harnesses could not be built / run: %s\n" % unit_err, tag="unit", found_input=False)
+        if acc.corr_fail:
+            a, i, what = acc.corr_fail[0]
             chk.violation("Lean header parser and the real decoder disagree (parser validation failed); the packets satisfy the C02 oracle\n"
                           "encode: %s\npacket %d: %s\ndisagreements: %d\n%s\n" %
-                          (describe(a), i, what, len(corr_fail), "\n".join("pkt %d: %s" % (x[1], x[2]) for x in corr_fail[:20])),
+                          (describe(a), i, what, len(acc.corr_fail), "\n".join("pkt %d: %s" % (x[1], x[2]) for x in acc.corr_fail[:20])),
                           tag="corr", found_input=False)
         if gm_bad:
             chk.violation("Lean global_motion_params reader and the real read_global_motion_params disagree on %d of %d random inputs\n"
                           "input: %s\nlean:    %s\ndecoder: %s\n" % (len(gm_bad), len(gml), gm_bad[0][0], gm_bad[0][1], gm_bad[0][2]),
                           tag="gm", found_input=False)
-        if not usable:
-            chk.violation("no usable encode: %s\n" % enc_problems[:3], tag="enc", found_input=False)
+        if not acc.usable and not only_unit:
+            chk.violation("no usable encode: %s\n" % acc.enc_problems[:3], tag="enc", found_input=False)
 
 
 def replay(chk, path):
-    """Re-run the encode named in the replay file (line `encode: k=v ...`)."""
+    """Re-run the encode named in the replay file (line `encode: k=v ...`), or the unit harnesses (line `unit: ...`)."""
     args = None
+    unit = False
     for line in open(path):
+        if line.startswith("unit: "):
+            unit = True
         if line.startswith("encode: "):
             args = {}
             for tok in line[len("encode: "):].split():
                 k, v = tok.split("=", 1)
                 args[k] = int(v) if v.lstrip("-").isdigit() else v
             break
-    run(chk, only_args=args)
+    if unit and args is None:
+        run(chk, only_unit=True)
+    else:
+        run(chk, only_args=args)
